@@ -116,12 +116,21 @@ Definition atom_holds (a : gatom) (n : nat) : bool :=
 (* conjunction of comparisons of cmd.num_args(opt_parms) with constants *)
 Definition guard_holds (g : list gatom) (n : nat) : bool := forallb (fun a => atom_holds a n) g.
 
-Record use : Type := { u_k : nat; u_guard : list gatom; u_sink : tok; u_argpos : nat }.
+(* what a parameter is: as documented by the help text (from its wording) / as used by the code (from the type it is
+   handed to: Geometry constructor argument 0 or 1, Matrix, SymMatrix, SparseMatrix, Sensors, Mesh, save, a string) *)
+Inductive pkind : Type := PGeom | PCond | PMatrix | PSym | PSparse | PSensors | PMesh | PName | POut | PAny.
+Definition pkind_code (p : pkind) : nat :=
+  match p with PGeom => 0 | PCond => 1 | PMatrix => 2 | PSym => 3 | PSparse => 4 | PSensors => 5 | PMesh => 6 | PName => 7 | POut => 8 | PAny => 9 end%nat.
+Definition compat (doc used : pkind) : bool :=
+  (pkind_code doc =? pkind_code used)%nat || ((pkind_code doc =? 9)%nat && (pkind_code used =? 7)%nat).
+
+Record use : Type := { u_k : nat; u_guard : list gatom; u_sink : tok; u_argpos : nat; u_kind : pkind }.
 Record block : Type := {
   b_aliases : list tok;
   b_multi : bool;              (* brace-list overload (optional [names] counted) vs single-name overload *)
   b_parms : list tok;
   b_variant : list tok;     (* aliases that select the variant inside the block (via opt_parms[0]) *)
+  b_doc : list (pkind * bool); (* parameters in the order the help text lists them; true = optional *)
   b_uses : list use }.
 Inductive kind : Type := KString | KDouble | KBool.
 Record decl : Type := { d_var : tok; d_name : tok; d_kind : kind; d_default : tok }.
@@ -335,3 +344,17 @@ Definition unknown_check_ok (t : tool) : bool :=
   | [], _ :: _ => has_unknown_check t
   | _, _ => true
   end.
+
+(* documented order = order read: on a line with all documented parameters, and on a line with the mandatory ones
+   only, the k-th parameter is handed to something of the kind the help text announces at that place *)
+Definition doc_full (b : block) : list pkind := map fst (b_doc b).
+Definition doc_mand (b : block) : list pkind := map fst (filter (fun x => negb (snd x)) (b_doc b)).
+Definition use_follows_doc (docs : list pkind) (u : use) : bool :=
+  if guard_holds (u_guard u) (List.length docs) && (1 <=? u_k u)%nat
+  then match nth_error docs (u_k u - 1) with Some d => compat d (u_kind u) | None => false end
+  else true.
+Definition line_ok (b : block) (docs : list pkind) : bool := forallb (use_follows_doc docs) (b_uses b).
+Definition doc_order_ok (b : block) : bool :=
+  line_ok b (doc_full b) && line_ok b (doc_mand b)
+  && (List.length (doc_mand b) =? nmand b)%nat && (List.length (b_parms b) <=? List.length (doc_full b))%nat.
+Definition tool_doc_order_ok (t : tool) : bool := forallb doc_order_ok (t_blocks t).
